@@ -105,7 +105,20 @@ def cases(tier):
     return cs
 
 
+def contracts_part(ctx):
+    """P: the bit layout of Matrix <-> WireVector conversion for ALL element widths and values (per shape):
+    the real constructor (and the bits setter it runs) executed on a model wire of symbolic width."""
+    import contracts.matrix   # noqa: F401
+    from pyvc.contract import REGISTRY
+    from pyvc import run as prun
+    cs = [c for c in REGISTRY.values() if c.__class__.__module__ == 'contracts.matrix']
+    prun.run_contracts(ctx, cs, 'contracts.matrix')
+    ctx.assume('Matrix layout contracts (contracts/matrix.py): shapes enumerated (1x1 .. 3x3, 1x4, 4x1), element '
+               'width / max_bits / value symbolic; WireVector slicing and as_wires through their own contracts (C06)')
+
+
 def run(ctx):
+    contracts_part(ctx)
     combfam.run_comb_family(ctx, 'C19.matrix', cases(ctx.tier), FUNCS,
                             'Matrix operation differs from integer-matrix arithmetic',
                             opts=dict(timeout_ms=120000, const_twins=4))
